@@ -28,11 +28,12 @@ def c02_jobs(tier):
         for o in orders:
             for keys in ("auto", "mixed", "caller"):
                 for exp in (1, 2, 3):
+                    # the three earlier lives of the object (see fresh()) for the mixed-key jobs, a plain new object otherwise
                     jobs.append(dict(name="seq-%s-%s-e%d" % (o, keys, exp), harness="c02_hashheap",
-                                     opts=dict(order=o, keys=keys, exp=exp, depth=5, mode="seq"),
-                                     bound_min=0, bound_max=0, deadline=400))
+                                     opts=dict(order=o, keys=keys, exp=exp, depth=5, mode="seq", lives=int(keys == "mixed")),
+                                     bound_min=0, bound_max=0, deadline=1200 if keys == "mixed" else 400))
             jobs.append(dict(name="seq6-%s" % o, harness="c02_hashheap",
-                             opts=dict(order=o, keys="mixed", exp=1, depth=6, mode="seq"),
+                             opts=dict(order=o, keys="mixed", exp=1, depth=6, mode="seq", lives=0),
                              bound_min=0, bound_max=0, deadline=900))
             for exp in (1, 2, 3):
                 jobs.append(dict(name="ramp-%s-e%d" % (o, exp), harness="c02_hashheap",
